@@ -779,6 +779,7 @@ package ackhandler
 // with the delay measured from the largest observed packet, and sending it clears the queue, the alarm and the counter.
 //@ func (h *appDataReceivedPacketTracker) GetAckFrame
 //@   props C07
+//@   requires h.packetHistory.rInv()
 //@   requires 0 <= now && now <= 4611686018427387903 && 0 <= h.largestObservedRcvdTime && h.largestObservedRcvdTime <= 4611686018427387903 && 0 <= h.ackAlarm && h.ackAlarm <= 4611686018427387903
 //@   ensures [not-before-due] implies(onlyIfQueued && !old(h.ackQueued) && (old(h.ackAlarm) == 0 || old(h.ackAlarm) > now), result == nil && called("(*receivedPacketTracker).GetAckFrame") == 0)
 //@   ensures [nothing-sent-keeps-state] implies(result == nil, h.ackQueued == old(h.ackQueued) && h.ackAlarm == old(h.ackAlarm) && h.ackElicitingPacketsReceivedSinceLastAck == old(h.ackElicitingPacketsReceivedSinceLastAck))
@@ -857,6 +858,7 @@ package ackhandler
 
 //@ func (h *ReceivedPacketHandler) GetAckFrame
 //@   props C07
+//@   requires implies(h.initialPackets != nil, h.initialPackets.packetHistory.rInv()) && implies(h.handshakePackets != nil, h.handshakePackets.packetHistory.rInv()) && h.appDataPackets.packetHistory.rInv()
 //@   requires 0 <= now && now <= 4611686018427387903 && 0 <= h.appDataPackets.largestObservedRcvdTime && h.appDataPackets.largestObservedRcvdTime <= 4611686018427387903 && 0 <= h.appDataPackets.ackAlarm && h.appDataPackets.ackAlarm <= 4611686018427387903
 //@   ensures [initial] implies(encLevel == 1, iff(result == nil, h.initialPackets == nil || !old(h.initialPackets.hasNewAck)) && implies(result != nil, result == h.initialPackets.lastAck))
 //@   ensures [handshake] implies(encLevel == 2, iff(result == nil, h.handshakePackets == nil || !old(h.handshakePackets.hasNewAck)) && implies(result != nil, result == h.handshakePackets.lastAck))
